@@ -54,6 +54,8 @@ pub enum PuOp {
     Donate { u: usize, denom: String, amt: u128 },
     Toggle { u: usize, pool: String, w: Option<bool>, d: Option<bool>, s: Option<bool> },
     SetPoolFee { u: usize, denom: String, amt: u128 },
+    /// one UpdateConfig message carrying both a pool creation fee (uusd) and a feature toggle
+    ToggleAndFee { u: usize, pool: String, w: Option<bool>, d: Option<bool>, s: Option<bool>, amt: u128 },
 }
 
 #[derive(Clone, Debug, Default, PartialEq)]
@@ -193,6 +195,17 @@ pub fn apply(w: &mut World, op: &PuOp) -> Outcome {
             },
             &[],
         ),
+        PuOp::ToggleAndFee { u, pool, w: wd, d, s, amt } => w.exec(
+            &user(w, *u),
+            &pmaddr,
+            &pm::ExecuteMsg::UpdateConfig {
+                fee_collector_addr: None,
+                farm_manager_addr: None,
+                pool_creation_fee: Some(coin(*amt, "uusd")),
+                feature_toggle: Some(pm::FeatureToggle { pool_identifier: pool.clone(), withdrawals_enabled: *wd, deposits_enabled: *d, swaps_enabled: *s }),
+            },
+            &[],
+        ),
         PuOp::SetPoolFee { u, denom, amt } => w.exec(
             &user(w, *u),
             &pmaddr,
@@ -252,13 +265,25 @@ impl PuCtx<'_> {
     pub fn delta(&self, acc: usize, denom: &str) -> i128 {
         self.post.b(acc, denom) as i128 - self.pre.b(acc, denom) as i128
     }
+    pub fn post_malformed(&self) -> bool {
+        self.post.pools.iter().any(|p| malformed(&p.pool_info))
+    }
     pub fn dsupply(&self, denom: &str) -> i128 {
         self.post.sup(denom) as i128 - self.pre.sup(denom) as i128
     }
 }
 
 pub fn descriptor(p: &pm::PoolInfo) -> String {
-    format!("{}|{:?}|{:?}|{:?}|{:?}|{}", p.pool_identifier, p.asset_denoms, p.asset_decimals, p.pool_type, p.pool_fees, p.lp_denom)
+    // the reserve list must keep holding exactly the pool's assets (order is not part of the descriptor)
+    let mut held: Vec<&str> = p.assets.iter().map(|c| c.denom.as_str()).collect();
+    held.sort();
+    format!("{}|{:?}|{:?}|{:?}|{:?}|{}|held{:?}", p.pool_identifier, p.asset_denoms, p.asset_decimals, p.pool_type, p.pool_fees, p.lp_denom, held)
+}
+
+/// A pool whose reserve list no longer matches its asset list (only reachable through a defect; C16 reports it).
+/// The alphabets skip such pools instead of indexing into them.
+pub fn malformed(p: &pm::PoolInfo) -> bool {
+    p.assets.len() < 2 || p.assets.len() != p.asset_denoms.len()
 }
 
 pub fn buffer_present(w: &World) -> bool {
@@ -391,6 +416,9 @@ pub fn enabled(w: &World, pre: &PuObs, alpha: Alpha) -> Vec<PuOp> {
     let swapfocus = alpha == Alpha::SwapFocus;
     let sw = |u: usize, pool: &str, o: &str, amt: u128, a: &str, slip: Option<u64>, recv: Option<usize>| PuOp::Swap { u, pool: pool.into(), offer: vec![(o.into(), amt)], ask: a.into(), slip, belief: None, recv };
     for p in &pre.pools {
+        if malformed(&p.pool_info) {
+            continue;
+        }
         let id = p.pool_info.pool_identifier.as_str();
         let assets = &p.pool_info.assets;
         let n = assets.len();
@@ -516,7 +544,7 @@ pub fn enabled(w: &World, pre: &PuObs, alpha: Alpha) -> Vec<PuOp> {
     ops.push(PuOp::Donate { u: B, denom: "uusd".into(), amt: 7 });
     if full {
         // invalid operations
-        if let Some(p) = pre.pools.first() {
+        if let Some(p) = pre.pools.iter().find(|p| !malformed(&p.pool_info)) {
             let id = p.pool_info.pool_identifier.clone();
             let d0 = p.pool_info.assets[0].denom.clone();
             let d1 = p.pool_info.assets[1].denom.clone();
@@ -540,6 +568,9 @@ pub fn enabled(w: &World, pre: &PuObs, alpha: Alpha) -> Vec<PuOp> {
             ops.push(PuOp::Toggle { u: OWNER, pool: id.clone(), w: None, d: Some(!st.deposits_enabled), s: None });
             ops.push(PuOp::Toggle { u: OWNER, pool: id.clone(), w: Some(!st.withdrawals_enabled), d: None, s: None });
             ops.push(PuOp::Toggle { u: A, pool: id.clone(), w: Some(false), d: None, s: None }); // not the owner: refused
+            // a switch and a configuration value in the same message
+            let fee_now = pre.cfg.as_ref().map(|c| c.pool_creation_fee.amount.u128()).unwrap_or(1000);
+            ops.push(PuOp::ToggleAndFee { u: OWNER, pool: id.clone(), w: None, d: None, s: Some(!st.swaps_enabled), amt: if fee_now == 1000 { 2000 } else { 1000 } });
         }
         let fee_now = pre.cfg.as_ref().map(|c| c.pool_creation_fee.amount.u128()).unwrap_or(1000);
         ops.push(PuOp::SetPoolFee { u: OWNER, denom: "uusd".into(), amt: if fee_now == 1000 { 2000 } else { 1000 } });
@@ -603,6 +634,10 @@ impl Checker for PuChecker {
         let ctx = PuCtx { w, op, pre, post: &post, out: &out, g0: g, g1: &g1, quote: &q, s0: &s0, storage_unchanged: unchanged, buffer_present: buffer_present(w) };
         for o in &self.oracles {
             o(&ctx, rec);
+        }
+        if out.is_ok() && post.pools.iter().any(|p| malformed(&p.pool_info)) {
+            rec.count("malformed_pool_states_not_expanded");
+            return None;
         }
         if out.is_ok() {
             Some(g1)
